@@ -723,6 +723,9 @@ func (vc *VC) specCall(env *Env, x *SCall) (Term, types.Type) {
 			env.fail("%s expects %d argument(s)", id.Name, n)
 		}
 	}
+	if t, ty, ok := vc.specIterCall(env, id.Name, x.Args); ok {
+		return t, ty
+	}
 	switch id.Name {
 	case "old":
 		need(1)
